@@ -1205,7 +1205,10 @@ func genFrameRead(c *genctx) {
 			lims = append(lims, limTokens[c.r.intn(len(limTokens))])
 			switch c.r.intn(4) {
 			case 0: // a header announcing a length around the interesting limits, payload cut short
-				n := c.r.pick(101, 16384, 16385, 20000, 1<<20, 1<<20+1, 1<<24-1)
+				n := c.r.pick(101, 16384, 16385, 16385, 20000, 70000, 1<<20, 1<<20+1)
+				if c.r.intn(25) == 0 {
+					n = 1<<24 - 1
+				}
 				stream = append(stream, rawFrame(n, byte(c.r.pick(0, 1, 9, 7, 0x50)), 0, 1, c.r.bytes(c.r.intn(20)))...)
 				k = 0
 			case 1: // a whole frame of 101..130 bytes (above the limit 100)
